@@ -284,6 +284,53 @@ pub fn replay_one(b: &Value, variant: usize) -> Option<String> {
     match res { Ok(r) => r, Err(e) => Some(format!("panic: {}", crate::rec_ipm::panic_msg(e))) }
 }
 
+/// A history that introduces an "infinite" right-hand side through update_b on a solver built without one.  With
+/// presolve disabled a freshly built solver caps such an entry at the infinity bound and keeps the row, which is all
+/// an updated solver can do as well: the two must agree (bit for bit with equilibration off).  With presolve enabled
+/// a fresh solver removes the row instead; the comparison is made all the same (class `update_introduces_infinite_bound`).
+pub fn inf_bound_history(variant: usize) -> Vec<(String, String)> {
+    let all = seeds();
+    let seed = &all[0];               // nonnegative cone: the only place where a bound can be infinite in a meaningful way
+    let equil = variant % 2 == 0;
+    let infv = [f64::INFINITY, 1e30, f64::MAX, 1e20][(variant / 2) % 4];
+    let mut out = vec![];
+    for presolve in [false, true] {
+        let res = catch_unwind(AssertUnwindSafe(|| -> Option<String> {
+            let cur: [Vec<usize>; 4] = [vec![0; 3], vec![0; 2], vec![0; 3], vec![0; 3]];
+            let mut p = seed.problem(&cur, equil);
+            p.settings["presolve_enable"] = json!(presolve);
+            let (P, A) = (p.P.to_clarabel(), p.A.to_clarabel());
+            let mut solver = DefaultSolver::new(&P, &p.q, &A, &p.b, &p.clarabel_cones(), p.settings());
+            solver.solve();
+            let mut b2 = p.b.clone();
+            b2[2] = infv;
+            let r = res_name(solver.update_b(&b2));
+            if r != "Ok" { return Some(format!("update_b with an infinite entry returned {}", r)); }
+            solver.solve();
+            let mut fresh = DefaultSolver::new(&P, &p.q, &A, &b2, &p.clarabel_cones(), p.settings());
+            fresh.solve();
+            let (s1, s2) = (&solver.solution, &fresh.solution);
+            if class_of(s1.status) != class_of(s2.status) {
+                return Some(format!("after update_b set b[2] = {:e} (presolve {}) the solver ends {:?} (x = {:?}) but a fresh solver on the same data ends {:?} (x = {:?})",
+                                    infv, presolve, s1.status, s1.x, s2.status, s2.x));
+            }
+            if class_of(s1.status) == "solved" && (s1.obj_val - s2.obj_val).abs() > 1e-6 * (1.0 + s1.obj_val.abs().max(s2.obj_val.abs())) {
+                return Some(format!("after update_b set b[2] = {:e} (presolve {}) objective {} but {} for a fresh solver", infv, presolve, s1.obj_val, s2.obj_val));
+            }
+            if !presolve && !equil {
+                let same = s1.iterations == s2.iterations && s1.x.iter().zip(&s2.x).all(|(a, b)| a.to_bits() == b.to_bits());
+                if !same { return Some(format!("after update_b set b[2] = {:e} (presolve and equilibration off) the solve is not the fresh solver's bit for bit", infv)); }
+            }
+            None
+        }));
+        let m = match res { Ok(r) => r, Err(e) => Some(format!("panic: {}", crate::rec_ipm::panic_msg(e))) };
+        if let Some(m) = m {
+            out.push((if presolve { "update_introduces_infinite_bound".to_string() } else { "update_b_infinite_entry_uncapped".to_string() }, m));
+        }
+    }
+    out
+}
+
 /// A history in which wall-clock time matters: a finite time_limit, and every solve is delayed (scripted sleep at
 /// iteration 1) by 40% of the limit.  Each solve alone stays far inside the limit, so every solve of the updated
 /// solver must end like a fresh solver's (which is delayed in the same way); only time charged from *earlier*
@@ -362,6 +409,12 @@ pub fn replay_file(path: &str, out: &str, seed: u64, every: usize) -> Value {
     for (k, line) in text.lines().enumerate() {
         if line.trim().is_empty() { continue; }
         let b: Value = serde_json::from_str(line).expect("json");
+        if let Some(v) = b.get("infb").and_then(|x| x.as_u64()) {
+            n += 1;
+            timed_done = true;
+            for (class, m) in inf_bound_history(v as usize) { bad.push(json!({"behaviour": b, "variant": v, "mismatch": m, "class": class})); }
+            continue;
+        }
         if b.get("timed").is_some() {
             n += 1;
             timed_done = true;
@@ -376,6 +429,15 @@ pub fn replay_file(path: &str, out: &str, seed: u64, every: usize) -> Value {
             if let Some(m) = replay_one(&b, v) {
                 let class = m.split(|c: char| c.is_ascii_digit() || c == '[' || c == '(').next().unwrap_or("").trim().replace(' ', "_");
                 bad.push(json!({"behaviour": b, "variant": v, "mismatch": m, "class": class}));
+            }
+        }
+    }
+    // histories that bring in an infinite bound through update_b
+    if !timed_done {
+        for v in 0..8usize {
+            n += 1;
+            for (class, m) in inf_bound_history(v) {
+                bad.push(json!({"behaviour": {"blocked": "none", "hist": [], "infb": v}, "variant": v, "mismatch": m, "class": class}));
             }
         }
     }
